@@ -38,6 +38,9 @@ type MachineDef struct {
 	Bonds   [][2]string
 	// SameDomain: all processors are instances of one domain (Procs[0])
 	SameDomain bool
+	// Rsize: register size (0 = 8). With 12-bit registers the simulator cannot execute inc (implemented for
+	// 8/16/32/64 bits only): the processor's step FAILS in every tick
+	Rsize uint8
 }
 
 func opsOf(prog string) []string {
@@ -56,8 +59,11 @@ func opsOf(prog string) []string {
 	return ops
 }
 
-func buildProc(p Proc) *procbuilder.Machine {
-	m, err := bmgen.NewMachine(bmgen.ArchSpec{Rsize: 8, R: 2, N: p.N, M: p.M, L: 1, O: 3, Ops: opsOf(p.Prog)})
+func buildProc(p Proc, rsize uint8) *procbuilder.Machine {
+	if rsize == 0 {
+		rsize = 8
+	}
+	m, err := bmgen.NewMachine(bmgen.ArchSpec{Rsize: rsize, R: 2, N: p.N, M: p.M, L: 1, O: 3, Ops: opsOf(p.Prog)})
 	if err != nil {
 		panic(err)
 	}
@@ -73,11 +79,14 @@ func buildProc(p Proc) *procbuilder.Machine {
 func (d MachineDef) Build() *bondmachine.Bondmachine {
 	b := new(bondmachine.Bondmachine)
 	b.Rsize = 8
+	if d.Rsize != 0 {
+		b.Rsize = d.Rsize
+	}
 	b.Init()
 	if d.SameDomain {
 		// every processor is an instance of ONE domain (the first processor's): one procbuilder.Machine object is
 		// then shared by all the per-processor simulator workers
-		b.Domains = append(b.Domains, buildProc(d.Procs[0]))
+		b.Domains = append(b.Domains, buildProc(d.Procs[0], d.Rsize))
 		for range d.Procs {
 			if _, err := b.Add_processor(0); err != nil {
 				panic(err)
@@ -85,7 +94,7 @@ func (d MachineDef) Build() *bondmachine.Bondmachine {
 		}
 	} else {
 		for i, p := range d.Procs {
-			b.Domains = append(b.Domains, buildProc(p))
+			b.Domains = append(b.Domains, buildProc(p, d.Rsize))
 			if _, err := b.Add_processor(i); err != nil {
 				panic(err)
 			}
@@ -450,6 +459,17 @@ const (
 	progE = "dec r0\nr2o r0 o0\nj 0\n"
 )
 
+const (
+	progF  = "inc r0\nj 0\n"
+	progF2 = "inc r1\nj 0\n"
+	progG  = "rset r0 3\nj 0\n"
+)
+
+func withRsize(d MachineDef, rs uint8) MachineDef {
+	d.Rsize = rs
+	return d
+}
+
 func pipeProg(op string) string {
 	// r1 := 3 ; r0 := 2 ; loop { r0 = r0 <op> r1 }  — the pipelined opcode needs two ticks
 	return "rset r1 3\nrset r0 2\n" + op + " r0 r1\nj 2\n"
@@ -480,6 +500,10 @@ func All() []Scenario {
 		{Name: "same-domain-cold-start", ColdStart: true, Sims: one(MachineDef{Procs: []Proc{{Prog: progD, M: 1}, {Prog: progD, M: 1}}, Outputs: 2, SameDomain: true,
 			Bonds: [][2]string{{"o0", "p0o0"}, {"o1", "p1o0"}}}, "config:show_pc"), Isolation: false, Ticks: [2]int{3, 4}, Bound: [2]int{2, 3},
 			Note: "2 processors that are instances of ONE domain, simulated on a machine that was just loaded from its saved form (nothing has used its objects before the workers do)"},
+		// two / three processors whose step fails in the same tick (and one that works): what Step returns and
+		// reports for such a tick is part of the trace and must not depend on which worker answers first
+		{Name: "failing2", Sims: one(withRsize(Indep(progF, progF2, progG), 12), "config:show_pc"), Ticks: [2]int{2, 3}, Bound: [2]int{2, 3},
+			Note: "12-bit registers: inc cannot be simulated, processors 0 and 1 fail in every tick, processor 2 works"},
 		{Name: "pipe2-addp", Sims: one(Indep(pipeProgShort("addp"), pipeProgShort("addp"))), Isolation: true, OpYield: true, Ticks: [2]int{4, 5}, Bound: [2]int{2, 3},
 			Note: "2 unconnected processors both executing addp (process-wide Addp singleton); opcode executions are scheduling points"},
 		{Name: "pipe2-multp", Sims: one(Indep(pipeProg("multp"), pipeProg("multp"))), Isolation: true, OpYield: true, Ticks: [2]int{4, 5}, Bound: [2]int{2, 3},
